@@ -121,5 +121,78 @@ def check(idx, run):
         "into `do idx=2,n: a(idx) = a(idx-1)`, which copies a(1) into every "
         "element, whereas the array assignment shifts a by one",
         loc(acls.module, vfunc))
+    # R3: the reduction is accumulated directly in the result variable only
+    # when the right-hand side does not read that variable at all - any
+    # other element of the same array may be the one being assigned
+    rcls = idx.get_class("ArrayReductionBaseTrans")
+    rapp = rcls.methods["apply"]
+    loops = [f for f in ast.walk(rapp) if isinstance(f, ast.For) and
+             "rhs.walk(Reference)" in ast.unparse(f.iter)]
+    tests = [st for f in loops for st in f.body if isinstance(st, ast.If) and
+             any(isinstance(a, ast.Assign) and
+                 isinstance(a.value, ast.Constant) and a.value.value is True
+                 for a in st.body)]
+    if len(tests) != 1 or not isinstance(tests[0].test, ast.Compare):
+        raise AnalysisError("ArrayReductionBaseTrans.apply: the test that "
+                            "decides whether a temporary accumulator is "
+                            "needed was not found")
+    cmp_ = tests[0].test
+    sides = [cmp_.left, cmp_.comparators[0]]
+    expanded = []
+    for side in sides:
+        txt = ast.unparse(side)
+        if isinstance(side, ast.Name):
+            for a in ast.walk(rapp):
+                if isinstance(a, ast.Assign) and \
+                        ast.unparse(a.targets[0]) == side.id:
+                    txt = ast.unparse(a.value)
+        expanded.append(txt)
+    by_symbol = all(t.endswith(".symbol") or t.endswith(".symbol.name") or
+                    t.endswith(".name") for t in expanded)
+    run.check(
+        "C06.R3", by_symbol, "ArrayReductionBaseTrans.apply",
+        "a temporary accumulator is used whenever the result's symbol is "
+        "read on the right-hand side",
+        f"the need for a temporary is decided by "
+        f"'{ast.unparse(cmp_)}' ({expanded}), which is not a comparison of "
+        f"symbols: `x(1) = 2.0*sum(x(:))` then accumulates into x(1) while "
+        f"x(1) is still being read (x(1) = 0.0; do: x(1) = x(1) + x(idx))",
+        loc(rcls.module, tests[0]))
+    # R3b: when the reduction was accumulated in a temporary, the temporary
+    # reaches the original left-hand side on every path
+    from sa.cfg import CFG
+    cfg = CFG(rapp)
+    flag = None
+    for a in ast.walk(rapp):
+        if isinstance(a, ast.Assign) and isinstance(a.value, ast.Constant) \
+                and a.value.value is True and any(
+                    a is x for t in tests for x in ast.walk(t)):
+            flag = ast.unparse(a.targets[0])
+    marks = {n.id for n in cfg.stmt_nodes() if
+             "Assignment.create(orig_lhs.copy()" in ast.unparse(n.ast)
+             and not isinstance(n.ast, (ast.If, ast.For, ast.While))}
+    missing = None
+    if flag and marks:
+        for path in cfg.paths(limit=40000):
+            if path[-1][0] is not cfg.exit:
+                continue
+            vals = {lab for n, lab in path if n.kind == "test" and
+                    isinstance(n.ast, ast.If) and
+                    ast.unparse(n.ast.test) == flag}
+            if vals != {"true"}:
+                continue    # the flag is false (or the path is infeasible)
+            if not any(n.id in marks for n, _ in path):
+                missing = [f"{n.lineno}:{lab}" for n, lab in path
+                           if n.kind == "test"][-4:]
+                break
+    run.check(
+        "C06.R3", bool(flag) and bool(marks) and missing is None,
+        "ArrayReductionBaseTrans.apply",
+        "a temporary accumulator is always assigned to the original "
+        "left-hand side",
+        f"when the reduction is accumulated in a temporary, apply() can "
+        f"finish without generating `<lhs> = ...tmp...` (path {missing}): "
+        f"`x(1) = sum(x(:))` leaves x(1) unassigned",
+        loc(rcls.module, rapp))
     run.assumptions = ["beyond R2, values computed by the generated code "
                        "are not decided"]
